@@ -1,4 +1,473 @@
 package main
 
-func record(args []string) {}
-func walk(args []string)   {}
+import (
+	"math"
+	"math/rand"
+	"reflect"
+	"strconv"
+	"strings"
+
+	. "github.com/pbenner/autodiff"
+	"verifharness/vh"
+)
+
+// event of the recorded trace: every field is present in every event and all
+// values are integers or strings (see spec/ContainersTrace.tla)
+type event struct {
+	E    string `json:"e"`
+	Op   string `json:"op"`
+	R    int    `json:"r"`
+	A    int    `json:"a"`
+	B    int    `json:"b"`
+	S    int    `json:"s"`
+	Rows int    `json:"rows"`
+	Cols int    `json:"cols"`
+	C    []int  `json:"c"`
+	Post []int  `json:"post"`
+	Ret  int    `json:"ret"`
+	K    string `json:"k"`   // info: storage kinds receiver/a/b
+	T    string `json:"t"`   // info: element type
+	Via  string `json:"via"` // info: "generic" or "concrete"
+}
+
+type pobj struct {
+	rows, cols int
+	dense      bool
+	c          cont
+}
+
+const bound = 100 // magnitudes stay inside int8 and TLC's integers
+
+func (p *pobj) vals() []float64 {
+	o := project(p.c)
+	r := make([]float64, len(o))
+	for i := range o {
+		r[i] = o[i].V
+	}
+	return r
+}
+
+func ints(v []float64) []int {
+	r := make([]int, len(v))
+	for i, x := range v {
+		if x != math.Trunc(x) || math.Abs(x) > 1e6 || x != x {
+			r[i] = 999999 // not an integer: no specification state can match
+		} else {
+			r[i] = int(x)
+		}
+	}
+	return r
+}
+
+func maxAbs(v []float64) float64 {
+	m := 0.0
+	for _, x := range v {
+		if a := math.Abs(x); a > m {
+			m = a
+		}
+	}
+	return m
+}
+
+func kindOf(p *pobj) string {
+	if p == nil {
+		return "-"
+	}
+	if p.dense {
+		return "d"
+	}
+	return "s"
+}
+
+// record writes ntraces traces per element type of nops operations each.
+func record(args []string) {
+	if len(args) < 3 {
+		vh.Fatal("usage: containers record trace nops ntraces [concrete]")
+	}
+	nops, _ := strconv.Atoi(args[1])
+	ntr, _ := strconv.Atoi(args[2])
+	useConcrete := len(args) > 3 && args[3] == "concrete"
+	seed := int64(vh.EnvInt("VERIF_SEED", 1))
+	out := vh.NewOut(args[0])
+	defer out.Close()
+	for tr := 0; tr < ntr; tr++ {
+		for ti, t := range elemTypes {
+			rng := rand.New(rand.NewSource(seed*1000003 + int64(tr)*97 + int64(ti)))
+			recordOne(out, rng, t, nops, useConcrete)
+		}
+	}
+}
+
+func recordOne(out *vh.Out, rng *rand.Rand, t *elemType, nops int, useConcrete bool) {
+	n := 1 + rng.Intn(8)
+	m := 1 + rng.Intn(4)
+	out.Put(event{E: "reset", C: []int{}, Post: []int{}, T: t.name})
+	// pool layout: id -> shape, storage
+	type shape struct {
+		rows, cols int
+		dense      bool
+	}
+	shapes := []shape{
+		{n, -1, true}, {n, -1, true}, {n, -1, true}, {n, -1, false}, {n, -1, false}, {n, -1, false},
+		{m, -1, true}, {m, -1, false},
+		{n, m, true}, {n, m, false}, {n, m, true}, {n, m, false},
+		{m, n, true}, {m, n, false},
+		{n, n, true}, {n, n, false},
+	}
+	pool := make([]*pobj, len(shapes)+1)
+	fresh := func(id int) {
+		sh := shapes[id-1]
+		cells := sh.rows
+		if sh.cols >= 0 {
+			cells = sh.rows * sh.cols
+		}
+		c := make([][2]int, cells)
+		vals := make([]int, cells)
+		st := []int{}
+		for i := range c {
+			switch x := rng.Intn(10); {
+			case x < 4:
+				c[i] = [2]int{0, 0}
+				if rng.Intn(3) == 0 {
+					st = append(st, i+1) // an explicitly stored zero
+				}
+			default:
+				v := rng.Intn(3) + 1
+				if rng.Intn(2) == 0 {
+					v = -v
+				}
+				c[i] = [2]int{v, 0}
+				st = append(st, i+1)
+			}
+			vals[i] = c[i][0]
+		}
+		k := "s"
+		if sh.dense {
+			k = "d"
+		}
+		p := &pobj{rows: sh.rows, cols: sh.cols, dense: sh.dense, c: t.build(k, sh.rows, sh.cols, c, st, false)}
+		pool[id] = p
+		out.Put(event{E: "new", R: id, Rows: sh.rows, Cols: sh.cols, C: vals, Post: ints(p.vals()), K: k, T: t.name})
+	}
+	for id := 1; id <= len(shapes); id++ {
+		fresh(id)
+	}
+	pick := func(ok func(p *pobj) bool, not ...int) int {
+		for try := 0; try < 40; try++ {
+			id := 1 + rng.Intn(len(shapes))
+			skip := false
+			for _, x := range not {
+				if x == id {
+					skip = true
+				}
+			}
+			if !skip && ok(pool[id]) {
+				return id
+			}
+		}
+		return 0
+	}
+	vecOf := func(k int) func(p *pobj) bool { return func(p *pobj) bool { return p.cols < 0 && p.rows == k } }
+	matOf := func(r, c int) func(p *pobj) bool {
+		return func(p *pobj) bool { return p.cols >= 0 && p.rows == r && p.cols == c }
+	}
+	anyObj := func(p *pobj) bool { return true }
+	ops := []string{"VaddV", "VsubV", "VmulV", "VdivV", "VaddS", "VsubS", "VmulS", "VdivS", "MdotV", "VdotM",
+		"MaddM", "MsubM", "MmulM", "MdivM", "MaddS", "MsubS", "MmulS", "MdivS", "MdotM", "Outer",
+		"Set", "Reset", "SetIdentity", "Equals", "VdotV"}
+	done := 0
+	for attempts := 0; done < nops && attempts < 50*nops; attempts++ {
+		op := ops[rng.Intn(len(ops))]
+		var r, a, b int
+		s := rng.Intn(5) - 2
+		switch op {
+		case "VaddV", "VsubV", "VmulV", "VdivV":
+			r = pick(func(p *pobj) bool { return p.cols < 0 })
+			if r != 0 {
+				a = pick(vecOf(pool[r].rows), r)
+				b = pick(vecOf(pool[r].rows), r)
+			}
+		case "MaddM", "MsubM", "MmulM", "MdivM":
+			r = pick(func(p *pobj) bool { return p.cols >= 0 })
+			if r != 0 {
+				a = pick(matOf(pool[r].rows, pool[r].cols), r)
+				b = pick(matOf(pool[r].rows, pool[r].cols), r)
+			}
+		case "VaddS", "VsubS", "VmulS", "VdivS":
+			r = pick(func(p *pobj) bool { return p.cols < 0 })
+			if r != 0 {
+				a = pick(vecOf(pool[r].rows), r)
+			}
+			b = -1
+		case "MaddS", "MsubS", "MmulS", "MdivS":
+			r = pick(func(p *pobj) bool { return p.cols >= 0 })
+			if r != 0 {
+				a = pick(matOf(pool[r].rows, pool[r].cols), r)
+			}
+			b = -1
+		case "Set", "Equals":
+			r = pick(anyObj)
+			if r != 0 {
+				if pool[r].cols < 0 {
+					a = pick(vecOf(pool[r].rows), r)
+				} else {
+					a = pick(matOf(pool[r].rows, pool[r].cols), r)
+				}
+			}
+			b = -1
+		case "Reset":
+			r = pick(anyObj)
+			a, b = -1, -1
+		case "SetIdentity":
+			r = pick(func(p *pobj) bool { return p.cols >= 0 })
+			a, b = -1, -1
+		case "MdotV":
+			a = pick(func(p *pobj) bool { return p.cols >= 0 })
+			if a != 0 {
+				r = pick(vecOf(pool[a].rows))
+				b = pick(vecOf(pool[a].cols), r)
+			}
+		case "VdotM":
+			b = pick(func(p *pobj) bool { return p.cols >= 0 })
+			if b != 0 {
+				r = pick(vecOf(pool[b].cols))
+				a = pick(vecOf(pool[b].rows), r)
+			}
+		case "MdotM":
+			a = pick(func(p *pobj) bool { return p.cols >= 0 })
+			if a != 0 {
+				b = pick(func(p *pobj) bool { return p.cols >= 0 && p.rows == pool[a].cols }, a)
+				if b != 0 {
+					r = pick(matOf(pool[a].rows, pool[b].cols), a, b)
+				}
+			}
+		case "Outer":
+			r = pick(func(p *pobj) bool { return p.cols >= 0 })
+			if r != 0 {
+				a = pick(vecOf(pool[r].rows))
+				b = pick(vecOf(pool[r].cols))
+			}
+		case "VdotV":
+			a = pick(func(p *pobj) bool { return p.cols < 0 })
+			if a != 0 {
+				b = pick(vecOf(pool[a].rows))
+			}
+			r = -1
+		}
+		if r == 0 || a == 0 || b == 0 {
+			continue
+		}
+		var pr, pa, pb *pobj
+		if r > 0 {
+			pr = pool[r]
+		}
+		if a > 0 {
+			pa = pool[a]
+		}
+		if b > 0 {
+			pb = pool[b]
+		}
+		// admissibility by inspection of the OPERANDS: results stay small integers
+		var av, bv []float64
+		ma, mb := 0.0, 0.0
+		if pa != nil {
+			av = pa.vals()
+			ma = maxAbs(av)
+		}
+		if pb != nil {
+			bv = pb.vals()
+			mb = maxAbs(bv)
+		}
+		sa := math.Abs(float64(s))
+		okOp := true
+		switch op {
+		case "VaddV", "VsubV", "MaddM", "MsubM":
+			okOp = ma+mb <= bound
+		case "VmulV", "MmulM", "Outer":
+			okOp = ma*mb <= bound
+		case "VdivV", "MdivM":
+			for i := range av {
+				if bv[i] == 0 || math.Mod(av[i], bv[i]) != 0 {
+					okOp = false
+				}
+			}
+		case "VaddS", "VsubS", "MaddS", "MsubS":
+			okOp = ma+sa <= bound
+		case "VmulS", "MmulS":
+			okOp = ma*sa <= bound
+		case "VdivS", "MdivS":
+			okOp = s != 0
+			for i := range av {
+				if s != 0 && math.Mod(av[i], float64(s)) != 0 {
+					okOp = false
+				}
+			}
+		case "MdotV", "VdotM", "VdotV":
+			if op == "MdotV" {
+				okOp = ma*mb*float64(pa.cols) <= bound
+			} else if op == "VdotM" {
+				okOp = ma*mb*float64(pb.rows) <= bound
+			} else {
+				okOp = ma*mb*float64(len(av)) <= bound
+			}
+		case "MdotM":
+			okOp = ma*mb*float64(pa.cols) <= bound
+		}
+		if !okOp {
+			// refresh one of the operands (or the receiver) so that sequences keep going
+			if rng.Intn(3) == 0 {
+				id := a
+				if rng.Intn(2) == 0 && b > 0 {
+					id = b
+				}
+				if id > 0 {
+					fresh(id)
+				}
+			}
+			continue
+		}
+		ev := event{E: "op", Op: op, R: max0(r), A: max0(a), B: max0(b), S: s, Rows: 0, Cols: -1, C: []int{}, Post: []int{},
+			K: kindOf(pr) + kindOf(pa) + kindOf(pb), T: t.name, Via: "generic"}
+		sc := t.elem(s, 0)
+		msg := vh.Try(func() {
+			concrete := false
+			if useConcrete && rng.Intn(2) == 0 && pr != nil {
+				concrete = callConcrete(op, pr, pa, pb, sc, &ev)
+			}
+			if concrete {
+				ev.Via = "concrete"
+			} else {
+				callGeneric(t, op, pr, pa, pb, sc, &ev)
+			}
+			if pr != nil && op != "Equals" {
+				ev.Post = ints(pr.vals())
+			}
+		})
+		if msg != "" {
+			ev.E = "panic:" + msg // no action of the specification explains a panic
+		}
+		out.Put(ev)
+		done++
+		if msg != "" {
+			return
+		}
+	}
+}
+
+func max0(x int) int {
+	if x < 0 {
+		return 0
+	}
+	return x
+}
+
+func callGeneric(t *elemType, op string, r, a, b *pobj, s Scalar, ev *event) {
+	switch op {
+	case "VaddV":
+		r.c.vec.VaddV(a.c.vec, b.c.vec)
+	case "VsubV":
+		r.c.vec.VsubV(a.c.vec, b.c.vec)
+	case "VmulV":
+		r.c.vec.VmulV(a.c.vec, b.c.vec)
+	case "VdivV":
+		r.c.vec.VdivV(a.c.vec, b.c.vec)
+	case "VaddS":
+		r.c.vec.VaddS(a.c.vec, s)
+	case "VsubS":
+		r.c.vec.VsubS(a.c.vec, s)
+	case "VmulS":
+		r.c.vec.VmulS(a.c.vec, s)
+	case "VdivS":
+		r.c.vec.VdivS(a.c.vec, s)
+	case "MdotV":
+		r.c.vec.MdotV(a.c.mat, b.c.vec)
+	case "VdotM":
+		r.c.vec.VdotM(a.c.vec, b.c.mat)
+	case "MaddM":
+		r.c.mat.MaddM(a.c.mat, b.c.mat)
+	case "MsubM":
+		r.c.mat.MsubM(a.c.mat, b.c.mat)
+	case "MmulM":
+		r.c.mat.MmulM(a.c.mat, b.c.mat)
+	case "MdivM":
+		r.c.mat.MdivM(a.c.mat, b.c.mat)
+	case "MaddS":
+		r.c.mat.MaddS(a.c.mat, s)
+	case "MsubS":
+		r.c.mat.MsubS(a.c.mat, s)
+	case "MmulS":
+		r.c.mat.MmulS(a.c.mat, s)
+	case "MdivS":
+		r.c.mat.MdivS(a.c.mat, s)
+	case "MdotM":
+		r.c.mat.MdotM(a.c.mat, b.c.mat)
+	case "Outer":
+		r.c.mat.Outer(a.c.vec, b.c.vec)
+	case "Set":
+		if r.cols < 0 {
+			r.c.vec.Set(a.c.vec)
+		} else {
+			r.c.mat.Set(a.c.mat)
+		}
+	case "Reset":
+		if r.cols < 0 {
+			r.c.vec.Reset()
+		} else {
+			r.c.mat.Reset()
+		}
+	case "SetIdentity":
+		r.c.mat.SetIdentity()
+	case "Equals":
+		var eq bool
+		if r.cols < 0 {
+			eq = r.c.vec.Equals(a.c.vec, eps)
+		} else {
+			eq = r.c.mat.Equals(a.c.mat, eps)
+		}
+		if eq {
+			ev.Ret = 1
+		}
+	case "VdotV":
+		x := NullScalar(t.st)
+		x.VdotV(a.c.vec, b.c.vec)
+		ev.Ret = ints([]float64{x.GetFloat64()})[0]
+	default:
+		panic("driver: unknown operation " + op)
+	}
+}
+
+// callConcrete uses the capital-letter method when it exists for the concrete
+// types at hand; reports whether it did.
+func callConcrete(op string, r, a, b *pobj, s Scalar, ev *event) bool {
+	m := reflect.ValueOf(r.c.obj()).MethodByName(strings.ToUpper(op))
+	if !m.IsValid() {
+		return false
+	}
+	var args []interface{}
+	switch {
+	case op == "Equals":
+		args = []interface{}{a.c.obj(), eps}
+	case a != nil && b != nil:
+		args = []interface{}{a.c.obj(), b.c.obj()}
+	case a != nil && strings.HasSuffix(op, "S"):
+		args = []interface{}{a.c.obj(), s}
+	case a != nil:
+		args = []interface{}{a.c.obj()}
+	}
+	mt := m.Type()
+	if mt.NumIn() != len(args) {
+		return false
+	}
+	vals := make([]reflect.Value, len(args))
+	for i, x := range args {
+		if reflect.TypeOf(x) != mt.In(i) {
+			return false
+		}
+		vals[i] = reflect.ValueOf(x)
+	}
+	ret := m.Call(vals)
+	if op == "Equals" && ret[0].Bool() {
+		ev.Ret = 1
+	}
+	return true
+}
